@@ -412,3 +412,45 @@ Proof.
   pose proof (load_file_keeps_ns isa rp f first L0 E) as Hk.
   intro H. injection H as <-. destruct ns as [|d ns']; [contradiction|]. rewrite Hs, <- Hk, lschema_eta. reflexivity.
 Qed.
+
+(* ------------------------------------------------------------------ the place named by INVALID_PARENT_NODE *)
+
+Definition shift_span (adj : nat) (ab : nat * nat) : nat * nat := (adj + fst ab, adj + snd ab).
+
+Lemma first_schema_word_shift T names : forall adj pos,
+  first_schema_word T names (adj + pos) = option_map (shift_span adj) (first_schema_word T names pos).
+Proof.
+  induction names as [|nm r IH]; intros adj pos; simpl; [reflexivity|].
+  destruct (km_get [nm] (t_keys T)).
+  - unfold shift_span. simpl. f_equal. f_equal. lia.
+  - replace (adj + pos + length nm + 1) with (adj + (pos + length nm + 1)) by lia. apply IH.
+Qed.
+
+(* the place reported for a prefixed tag is the place reported for the unprefixed tag moved by the length of the
+   namespace -- for every table, text and namespace length *)
+Theorem invalid_parent_span_shift T clean adj :
+  invalid_parent_span T clean adj = option_map (shift_span adj) (invalid_parent_span T clean 0).
+Proof.
+  unfold invalid_parent_span. destruct (km_get _ (t_keys T)); [reflexivity|].
+  destruct (walk T _ 0 _ None) as [[e|] k]; [|reflexivity].
+  destruct (Nat.ltb k _ && _); [|reflexivity].
+  exact (first_schema_word_shift T _ adj _).
+Qed.
+
+(* ... and it is the place of the FIRST extension word that is a tag of the schema *)
+Theorem first_schema_word_points T names : forall pos a b,
+  first_schema_word T names pos = Some (a, b) ->
+  exists i nm, nth_error names i = Some nm /\ km_get [nm] (t_keys T) <> None /\
+               (forall j x, j < i -> nth_error names j = Some x -> km_get [x] (t_keys T) = None) /\
+               a = pos + words_offset (firstn i names) /\ b = a + length nm.
+Proof.
+  induction names as [|nm r IH]; intros pos a b H; simpl in H; [discriminate|].
+  destruct (km_get [nm] (t_keys T)) eqn:E.
+  - injection H as <- <-. exists 0, nm. repeat split; try reflexivity.
+    + rewrite E. discriminate.
+    + intros j x Hj. lia.
+    + simpl. lia.
+  - destruct (IH _ a b H) as [i [x [Hn [Hk [Hf [Ha Hb]]]]]]. exists (S i), x. repeat split; try assumption.
+    + intros j y Hj Hy. destruct j as [|j]; simpl in Hy; [injection Hy as <-; exact E | apply (Hf j y); [lia | exact Hy]].
+    + simpl. lia.
+Qed.
